@@ -140,7 +140,13 @@ func argFor(t *rapid.T, doc *sbom.Document, at reflect.Type, label string) (refl
 	}
 	// any enum of the schema (named int32 type), any other message of the schema
 	if at.Kind() == reflect.Int32 && at.PkgPath() != "" {
-		return reflect.ValueOf(int32(rapid.IntRange(0, 3).Draw(t, label+".enum"))).Convert(at), true
+		// only values the enum defines (a parameter documented as "a defined value" may not tolerate others)
+		if e, ok := reflect.Zero(at).Interface().(protoreflect.Enum); ok {
+			vals := e.Descriptor().Values()
+			n := vals.Get(rapid.IntRange(0, vals.Len()-1).Draw(t, label+".enum")).Number()
+			return reflect.ValueOf(int32(n)).Convert(at), true
+		}
+		return reflect.Value{}, false
 	}
 	if at.Kind() == reflect.Ptr && at.Implements(reflect.TypeOf((*proto.Message)(nil)).Elem()) {
 		m := reflect.New(at.Elem()).Interface().(proto.Message)
@@ -187,7 +193,16 @@ type c11Call struct {
 	desc   string
 }
 
-func (c c11Call) run() { c.method.Func.Call(append([]reflect.Value{c.recv}, c.args...)) }
+// run calls the method. A panic of the operation is no modification of an operand (the statement is about the operands'
+// state): it is counted and the snapshots are compared as after any other call.
+func (c c11Call) run() {
+	defer func() {
+		if r := recover(); r != nil {
+			hx.Class("operation_panicked:" + c.desc)
+		}
+	}()
+	c.method.Func.Call(append([]reflect.Value{c.recv}, c.args...))
+}
 
 // c11Calls builds the calls of every read-only method on recv with generated arguments.
 func c11Calls(t *rapid.T, doc *sbom.Document, recv reflect.Value, label string) []c11Call {
